@@ -147,5 +147,78 @@ func writeTables(ctx *common.Ctx) map[string][][]string {
 	if err := os.WriteFile(filepath.Join(ctx.OutDir, "Tables.v"), []byte(sb.String()), 0o644); err != nil {
 		panic(err)
 	}
+	reportChangedEntries(ctx, found)
 	return found
+}
+
+// the expected word tables (the same as Spec.std_tables): an entry of the source that differs is reported with
+// an input that prints it — the model of the correspondence follows the regenerated tables, so without this a
+// changed word would only show as a failed table theorem. The one deviation of the unchanged tree
+// (cardinalTriples[6] = "quantillion") is the known finding C15-quantillion.
+var expectedTables = map[string][][]string{
+	"romanNumerals": {{"", "I", "II", "III", "IV", "V", "VI", "VII", "VIII", "IX"}, {"", "X", "XX", "XXX", "XL", "L", "LX", "LXX", "LXXX", "XC"},
+		{"", "C", "CC", "CCC", "CD", "D", "DC", "DCC", "DCCC", "CM"}, {"", "M", "MM", "MMM"}},
+	"oldRomanNumerals": {{"", "I", "II", "III", "IIII", "V", "VI", "VII", "VIII", "VIIII"}, {"", "X", "XX", "XXX", "XXXX", "L", "LX", "LXX", "LXXX", "LXXXX"},
+		{"", "C", "CC", "CCC", "CCCC", "D", "DC", "DCC", "DCCC", "DCCCC"}, {"", "M", "MM", "MMM"}},
+	"cardinalTriples": {{"", "thousand", "million", "billion", "trillion", "quadrillion", "quintillion", "sextillion", "septillion", "octillion", "nonillion",
+		"decillion", "undecillion", "duodecillion", "tredecillion", "quattuordecillion", "quindecillion", "sexdecillion", "septendecillion", "octodecillion",
+		"novemdecillion", "vigintillion"}},
+	"cardinalOne":  {{"", "one", "two", "three", "four", "five", "six", "seven", "eight", "nine"}},
+	"cardinalTeen": {{"ten", "eleven", "twelve", "thirteen", "fourteen", "fifteen", "sixteen", "seventeen", "eighteen", "nineteen"}},
+	"cardinalTen":  {{"twenty", "thirty", "forty", "fifty", "sixty", "seventy", "eighty", "ninety"}},
+	"ordinalOne":   {{"", "first", "second", "third", "fourth", "fifth", "sixth", "seventh", "eighth", "ninth"}},
+	"ordinalTeen":  {{"tenth", "eleventh", "twelfth", "thirteenth", "fourteenth", "fifteenth", "sixteenth", "seventeenth", "eighteenth", "nineteenth"}},
+}
+
+func reportChangedEntries(ctx *common.Ctx, found map[string][][]string) {
+	at := func(rows [][]string, r, i int) string {
+		if r < len(rows) && i < len(rows[r]) {
+			return rows[r][i]
+		}
+		return ""
+	}
+	for _, name := range common.SortedKeys(expectedTables) {
+		exp, got := expectedTables[name], found[name]
+		for r := 0; r < len(exp) || r < len(got); r++ {
+			n := 0
+			if r < len(exp) {
+				n = len(exp[r])
+			}
+			if r < len(got) && len(got[r]) > n {
+				n = len(got[r])
+			}
+			for i := 0; i < n; i++ {
+				e, g := at(exp, r, i), at(got, r, i)
+				if e == g || (name == "cardinalTriples" && i == 6 && g == "quantillion") {
+					continue
+				}
+				// an input that prints the entry
+				src := ""
+				pow := func(k int) string { return "1" + strings.Repeat("0", k) }
+				switch name {
+				case "romanNumerals":
+					src = fmt.Sprintf(`(format nil "~@R" %d%s)`, i, strings.Repeat("0", r))
+				case "oldRomanNumerals":
+					src = fmt.Sprintf(`(format nil "~:@R" %d%s)`, i, strings.Repeat("0", r))
+				case "cardinalTriples":
+					src = fmt.Sprintf(`(format nil "~R" %s1)`, pow(3 * i)[:3*i])
+					if i == 0 {
+						src = `(format nil "~R" 1)`
+					}
+				case "cardinalOne":
+					src = fmt.Sprintf(`(format nil "~R" %d)`, i)
+				case "cardinalTeen":
+					src = fmt.Sprintf(`(format nil "~R" %d)`, 10+i)
+				case "cardinalTen":
+					src = fmt.Sprintf(`(format nil "~R" %d)`, (i+2)*10+1)
+				case "ordinalOne":
+					src = fmt.Sprintf(`(format nil "~:R" %d)`, i)
+				case "ordinalTeen":
+					src = fmt.Sprintf(`(format nil "~:R" %d)`, 10+i)
+				}
+				o := evalString(src)
+				ctx.Violate(fmt.Sprintf("word table %s[%d][%d] of pkg/cl/control.go is %q, expected %q", name, r, i, g, e), src, show(o), "a text with "+fmt.Sprintf("%q", e))
+			}
+		}
+	}
 }
